@@ -387,7 +387,170 @@ def table_sweep_cases():
                        "sp": SP1, "custom": {}, "has_mds": True}
 
 
+def sequence_kinds(case):
+    """what a sequence exercises (for the evidence histogram)"""
+    by = {sp["entity_id"]: sp for sp in case["sps"]}
+    kinds = set()
+    steps = case["steps"]
+    for i in range(len(steps)):
+        for j in range(i + 1, len(steps)):
+            a, b = steps[i], steps[j]
+            if a["sp"] == b["sp"]:
+                kinds.add("same-sp-changed-identity" if a["identity"] != b["identity"] else "same-sp-same-identity")
+                if a["op"] == b["op"] == "filter" and (a.get("req"), a.get("opt")) != (b.get("req"), b.get("opt")):
+                    kinds.add("same-sp-different-requested")
+                continue
+            sa, sb = by.get(a["sp"]), by.get(b["sp"])
+            if sa is None or sb is None:
+                kinds.add("unknown-requester")
+                continue
+            kinds.add("same-categories" if sorted(sa["cats"]) == sorted(sb["cats"]) else "different-categories")
+            kinds.add("same-requested" if sa["ras"] == sb["ras"] else "different-requested")
+            secs = {w for w, _ in case["policy"] or []}
+            ka = a["sp"] if a["sp"] in secs else sa["ra"] if sa["ra"] in secs else "default"
+            kb = b["sp"] if b["sp"] in secs else sb["ra"] if sb["ra"] in secs else "default"
+            kinds.add("same-section" if ka == kb else "different-sections")
+    return sorted(kinds)
+
+
+def _permutations(items):
+    if len(items) <= 1:
+        yield list(items)
+        return
+    for i in range(len(items)):
+        for rest in _permutations(items[:i] + items[i + 1:]):
+            yield [items[i]] + rest
+
+
+def sequence_sweep_cases():
+    """deterministic: for every RELEASE item of every bundled module, two requesters carrying exactly the item's
+    categories but requiring different attributes, served by one Policy / one Server in both orders"""
+    tables = _bundled()
+    every = []
+    for _, entries in tables:
+        for e in entries:
+            for a in e[2]:
+                if a not in every:
+                    every.append(a)
+    identity = [[a, {"l": ["v-" + a]}] for a in every] + [["x-unlisted", {"l": ["v"]}]]
+    sec = {"ar": None, "ar_key": False, "fomr": False, "ec": [], "ec_key": True, "lifetime": True, "nonempty": True}
+
+    def ras(attrs):
+        return [{"name": OID.get(a, "urn:x-c10:unknown:" + a), "name_format": URI, "friendly_name": a,
+                 "values": [], "required": True} for a in attrs]
+
+    for name, entries in tables:
+        for kind, keys, attrs, o, n in entries:
+            if kind == 0 or len(attrs) < 2:
+                continue
+            half = max(1, len(attrs) // 2)
+            sps = [{"entity_id": SP1, "ra": None, "cats": list(keys), "subj": None, "ras": ras(attrs[:half]), "split": False},
+                   {"entity_id": SP2, "ra": None, "cats": list(keys), "subj": None, "ras": ras(attrs[half:half + 2]), "split": False}]
+            for op in (("restrict", "authn_response") if o else ("restrict",)):
+                for order in ((SP1, SP2), (SP2, SP1)):
+                    steps = [{"op": op, "sp": sp, "identity": identity} for sp in order]
+                    if op == "authn_response":
+                        for st in steps:
+                            st["best_effort"] = None
+                    yield {"op": "sequence", "policy": [["default", dict(sec, ec=[name])]], "sps": sps, "custom": {},
+                           "steps": steps}
+
+
+def gen_sequences(rng, n_scen):
+    """one long-lived Policy / Server answering 2-4 requests: different requesters with the same or different
+    entity-category sets, requested attributes and policy sections (all orders for 2 and 3 steps), and repeated
+    requests of one requester with a changed identity / changed requested attributes"""
+    focus = ["http://www.geant.net/uri/dataprotection-code-of-conduct/v1",
+             "https://refeds.org/category/code-of-conduct/v2",
+             "https://myacademicid.org/entity-categories/esi",
+             "http://refeds.org/category/research-and-scholarship"] + CC
+    for _ in range(n_scen):
+        prefer = category_attrs(rng)
+        use_custom = rng.random() < 0.4
+        identity = gen_identity(rng, prefer)
+        while len(identity) < 3:
+            identity = gen_identity(rng, prefer)
+        n_sp = rng.choice([2, 2, 3])
+        sps = []
+        shared_cats = rng.sample(focus, rng.choice([1, 1, 2, 3]))
+        same_cats = rng.random() < 0.65
+        for k in range(n_sp):
+            sp = gen_sp(rng, [SP1, SP2, "https://sp3.c10.example/sp"][k], identity, prefer)
+            if same_cats:
+                sp["cats"] = list(shared_cats) if rng.random() < 0.85 else list(reversed(shared_cats))
+            # mostly well-formed requirements (FriendlyName present), differing between the requesters
+            have = [k_ for k_, _ in identity if k_]
+            ras = []
+            for a in rng.sample(have + prefer, min(len(have + prefer), rng.choice([1, 2, 3]))):
+                base = next((l for l in LOCALS if l.lower() == a.lower()), a)
+                ras.append({"name": OID.get(base, "urn:x-c10:unknown:" + base), "name_format": URI,
+                            "friendly_name": base, "values": [], "required": rng.random() < 0.75})
+            if rng.random() < 0.7:
+                sp["ras"] = ras
+            if rng.random() < 0.25 and sps:
+                sp["ras"] = copy.deepcopy(sps[0]["ras"])
+            sps.append(sp)
+        policy = gen_policy(rng, identity, sps, use_custom)
+        if rng.random() < 0.7:
+            mods = rng.sample(["swamid", "edugain", "refeds", "incommon"], rng.choice([1, 1, 2]))
+            if use_custom and rng.random() < 0.5:
+                mods.append(CUSTOM)
+            sec = {"ar": None, "ar_key": False, "fomr": rng.choice([None, False, False]), "ec": mods, "ec_key": True,
+                   "lifetime": True, "nonempty": True}
+            policy = [[w, s_] for w, s_ in (policy or []) if w != "default"] + [["default", sec]]
+        custom = {CUSTOM: gen_custom(rng)} if use_custom else {}
+        base = {"op": "sequence", "policy": policy, "sps": sps, "custom": custom}
+
+        def mk(sp, op=None, ident=None):
+            op = op or rng.choice(["restrict", "restrict", "apply_policy", "authn_response", "setup_assertion",
+                                   "attribute_response", "filter"])
+            st = {"op": op, "sp": sp, "identity": ident if ident is not None else identity}
+            if op == "filter":
+                ras = gen_ras(rng, st["identity"], prefer, direct=True)
+                st["req"] = [r for r in ras if r["required"]]
+                st["opt"] = [r for r in ras if not r["required"]]
+                st["has_mds"] = rng.random() < 0.9
+            if op == "authn_response":
+                st["best_effort"] = rng.choice([None, False, True])
+            if op == "setup_assertion":
+                st["best_effort"] = rng.choice([False, True])
+            return st
+
+        c = rng.random()
+        if c < 0.55:
+            # different requesters, one request each, the same entry point: every order
+            op = rng.choice(["restrict", "restrict", "authn_response", "apply_policy", "attribute_response"])
+            steps = [mk(sp["entity_id"], op) for sp in sps]
+            for perm in _permutations(steps):
+                yield dict(base, steps=perm)
+        elif c < 0.75:
+            # mixed entry points, 2-4 steps
+            steps = [mk(rng.choice(sps)["entity_id"]) for _ in range(rng.choice([2, 3, 4]))]
+            yield dict(base, steps=steps)
+            yield dict(base, steps=list(reversed(steps)))
+        elif c < 0.9:
+            # the same requester again with a changed identity (and another requester in between, sometimes)
+            sp = rng.choice(sps)["entity_id"]
+            op = rng.choice(["restrict", "authn_response", "apply_policy"])
+            ident2 = gen_identity(rng, prefer)
+            steps = [mk(sp, op), mk(sp, op, ident2)]
+            if rng.random() < 0.5:
+                steps.insert(1, mk(rng.choice(sps)["entity_id"], op))
+            yield dict(base, steps=steps)
+            yield dict(base, steps=list(reversed(steps)))
+        else:
+            # Policy.filter called for one requester with different requested-attribute lists
+            sp = rng.choice(sps)["entity_id"]
+            steps = [mk(sp, "filter"), mk(sp, "filter"), mk(sp, "restrict")]
+            for perm in _permutations(steps):
+                yield dict(base, steps=perm)
+
+
 def gen_cases(rng, tier):
+    for c in sequence_sweep_cases():
+        yield c
+    for c in gen_sequences(rng, 130 if tier == "quick" else 900):
+        yield c
     n_scen = 560 if tier == "quick" else 2800
     per = 7 if tier == "quick" else 9
     for c in table_sweep_cases():
@@ -500,16 +663,9 @@ def _idp(case):
     key = repr((case["sps"], case["policy"], case["custom"]))
     if _state.get("key") != key:
         _state.clear()
-        _install_custom(case["custom"])
-        pconf = _policy_conf(case["policy"])
-        conf = S.idp_config(sp_entities=[_sp_entity(sp) for sp in case["sps"]])
-        conf["service"]["idp"]["policy"] = copy.deepcopy(pconf)
-        conf["service"]["aa"] = {
-            "endpoints": {"attribute_service": [("https://idp.verif.example/aa/soap", S.BINDING_SOAP)]},
-            "policy": copy.deepcopy(pconf),
-        }
+        idp, pconf = _build_idp(case)
         _state["key"] = key
-        _state["idp"] = S.make_idp(conf)
+        _state["idp"] = idp
         _state["pconf"] = pconf
     return _state["idp"]
 
@@ -642,23 +798,62 @@ def _read_setup_result(res):
     return _read_attribute_statements([root])
 
 
+STEP_FIELDS = ("op", "sp", "identity", "req", "opt", "best_effort", "has_mds")
+
+
+def step_case(case, i):
+    """the single-step case the i-th step of a sequence amounts to (step fields override shared ones)"""
+    c = {k: v for k, v in case.items() if k != "steps"}
+    c.update(case["steps"][i])
+    c.setdefault("has_mds", True)
+    return c
+
+
+def _build_idp(case):
+    from saml2.assertion import Policy  # noqa: F401
+
+    _install_custom(case["custom"])
+    pconf = _policy_conf(case["policy"])
+    conf = S.idp_config(sp_entities=[_sp_entity(sp) for sp in case["sps"]])
+    conf["service"]["idp"]["policy"] = copy.deepcopy(pconf)
+    conf["service"]["aa"] = {
+        "endpoints": {"attribute_service": [("https://idp.verif.example/aa/soap", S.BINDING_SOAP)]},
+        "policy": copy.deepcopy(pconf),
+    }
+    return S.make_idp(conf), pconf
+
+
 def run_impl(case):
+    from saml2.assertion import Policy
+
+    if case["op"] == "sequence":
+        # ONE Server (whose configuration holds ONE Policy per service) and one metadata-less Policy answer
+        # every step; nothing is shared with other cases, so the sequence is its own replay
+        idp, pconf = _build_idp(case)
+        pols = {"mds": idp.config.getattr("policy", "idp"), "nomds": Policy(copy.deepcopy(pconf), None)}
+        return {"steps": [_run_step(step_case(case, i), idp, pols) for i in range(len(case["steps"]))]}
+    idp = _idp(case)
+    # single-step cases are self-contained: fresh Policy objects, also inside the cached Server
+    pconf = _state["pconf"]
+    idp.config.setattr("idp", "policy", Policy(copy.deepcopy(pconf), idp.metadata))
+    idp.config.setattr("aa", "policy", Policy(copy.deepcopy(pconf), idp.metadata))
+    pols = {"mds": Policy(copy.deepcopy(pconf), idp.metadata), "nomds": Policy(copy.deepcopy(pconf), None)}
+    return _run_step(case, idp, pols)
+
+
+def _run_step(case, idp, pols):
     from saml2 import saml
-    from saml2.assertion import Assertion, Policy
+    from saml2.assertion import Assertion
     from saml2.s_utils import MissingValue
 
     op = case["op"]
     env = _env(case)
-    idp = _idp(case)
     ident = _py_identity(case["identity"])
     before = copy.deepcopy(ident)
     out = None
     res = resp = None
     if op in ("filter", "restrict", "apply_policy"):
-        if op == "filter" and not case["has_mds"]:
-            pol = Policy(copy.deepcopy(_state["pconf"]), None)
-        else:
-            pol = Policy(copy.deepcopy(_state["pconf"]), idp.metadata)
+        pol = pols["nomds"] if (op == "filter" and not case["has_mds"]) else pols["mds"]
         try:
             if op == "filter":
                 req = [_ra_dict(r) for r in case["req"]]
@@ -740,6 +935,10 @@ def _norm(case, o):
 def compare(case, impl, model):
     if not isinstance(model, dict):
         return False
+    if case["op"] == "sequence":
+        si, sm = impl.get("steps") or [], model.get("steps") or []
+        return len(si) == len(sm) == len(case["steps"]) and all(
+            compare(step_case(case, i), si[i], sm[i]) for i in range(len(si)))
     m = dict(model.get("out") or {})
     m["unchanged"] = model.get("unchanged")
     if "self" in model:
@@ -748,6 +947,8 @@ def compare(case, impl, model):
 
 
 def nontrivial(case, impl, lean):
+    if case["op"] == "sequence":
+        return True
     f = lean.get("features") or []
     return "nofilter" not in f or "restr" in f
 
@@ -756,6 +957,13 @@ def finding_key(case, impl, lean):
     """Root-cause class of a spec failure.  A key is returned only when the implementation did exactly
     what the model of the recorded defect predicts (impl == model) and the side condition that
     delimits the class is violated on this input."""
+    if case["op"] == "sequence":
+        # known only if EVERY failing step is, by itself, the known finding
+        keys = set()
+        for i, (si, sl) in enumerate(zip(impl.get("steps") or [], lean.get("steps") or [])):
+            if sl.get("spec_impl") is False:
+                keys.add(finding_key(step_case(case, i), si, sl))
+        return keys.pop() if len(keys) == 1 else None
     if not compare(case, impl, lean.get("model")):
         return None
     if lean.get("spec_model") is not False:
@@ -768,7 +976,32 @@ def finding_key(case, impl, lean):
     return None
 
 
+def _shrink_sequence(case):
+    steps = case["steps"]
+    if len(steps) > 1:
+        for i in range(len(steps)):
+            c = copy.deepcopy(case)
+            del c["steps"][i]
+            yield c
+    used = {st["sp"] for st in steps}
+    shared = ("policy", "sps", "custom")
+    for i in range(len(steps)):
+        for cand in shrink(step_case(case, i)):
+            if not used <= ({sp["entity_id"] for sp in cand["sps"]} | {SPX}):
+                continue
+            c = copy.deepcopy(case)
+            for k in shared:
+                c[k] = cand[k]
+            c["steps"][i] = {k: cand[k] for k in STEP_FIELDS if k in case["steps"][i]}
+            yield c
+
+
 def shrink(case):
+    if case["op"] == "sequence":
+        for c in _shrink_sequence(case):
+            yield c
+        return
+
     def w(**kw):
         c = copy.deepcopy(case)
         c.update(kw)
@@ -839,6 +1072,19 @@ def shrink(case):
 
 def neighbours(case, rng):
     """directed search around a disagreement: the same scenario through every entry point"""
+    if case["op"] == "sequence":
+        # every step alone, every pair in both orders
+        n = len(case["steps"])
+        for i in range(n):
+            c = copy.deepcopy(case)
+            c["steps"] = [case["steps"][i]]
+            yield c
+            for j in range(n):
+                if i != j:
+                    c = copy.deepcopy(case)
+                    c["steps"] = [case["steps"][i], case["steps"][j]]
+                    yield c
+        return
     for op in ("restrict", "apply_policy", "authn_response", "attribute_response", "setup_assertion"):
         if op != case["op"] and case["op"] != "filter":
             c = copy.deepcopy(case)
@@ -852,9 +1098,20 @@ def neighbours(case, rng):
 
 def distribution(recs):
     d = {"op": {}, "impl": {}, "features": {}, "identity_size": {}, "scalar_attrs": 0}
+    d["sequence_steps"] = {}
+    d["sequence_kinds"] = {}
     for r in recs:
         c = r["case"]
         d["op"][c["op"]] = d["op"].get(c["op"], 0) + 1
+        if c["op"] == "sequence":
+            for st in c["steps"]:
+                k = "step:" + st["op"]
+                d["sequence_steps"][k] = d["sequence_steps"].get(k, 0) + 1
+            for k in sequence_kinds(c):
+                d["sequence_kinds"][k] = d["sequence_kinds"].get(k, 0) + 1
+            for f in r["lean"].get("features") or []:
+                d["features"][f] = d["features"].get(f, 0) + 1
+            continue
         k = r["impl"].get("r", "?") + ("-" + r["impl"]["e"] if "e" in r["impl"] else "")
         d["impl"][k] = d["impl"].get(k, 0) + 1
         for f in r["lean"].get("features") or []:
